@@ -232,6 +232,7 @@ MUTANTS = [
     ('C11', 'revert-file-eof-discard', ('revert', '47ec135'), 'C11.d'),
     ('C11', 'revert-starttls-drain', ('revert', 'cb57a86'), 'C11.c'),
     ('C12', 'revert-connectless-disconnect', ('revert', 'c71db07'), 'C12.a'),
+    ('C12', 'revert-send-error-discards-input', ('revert', '35da0df'), 'C12.g'),
 ]
 
 # behaviour-preserving edits: the check of the property must stay silent
@@ -252,8 +253,8 @@ TWINS = [
                                   "        if self.running:\n            self._running = False\n\n            self.fire(stopped(self))\n\n            if self.root._executing_thread is None:\n                for _ in range(3):\n                    self.tick()\n\n            if code is not None:\n                raise SystemExit(code)"), None),
     ('C09', 'not-due-first', (R, TIMERS, "        if now >= self.expiry:\n            if self.unregister_pending:\n                return\n            self.fire(self.event, *self.channels)\n\n            if self.persist:\n                self.reset()\n            else:\n                self.unregister()\n            event.reduce_time_left(0)\n        else:\n            event.reduce_time_left(self.expiry - now)",
                               "        if now < self.expiry:\n            event.reduce_time_left(self.expiry - now)\n            return\n        if self.unregister_pending:\n            return\n        self.fire(self.event, *self.channels)\n\n        if self.persist:\n            self.reset()\n        else:\n            self.unregister()\n        event.reduce_time_left(0)"), None),
-    ('C11', 'errno-positive-form', (R, SOCKETS, "            if e.args[0] not in (EINTR, EWOULDBLOCK, ENOBUFS):\n                self.fire(error(sock, e))\n                self._close(sock)\n            else:\n                self._buffers[sock].appendleft(data)",
-                                    "            if e.args[0] in (EINTR, EWOULDBLOCK, ENOBUFS):\n                self._buffers[sock].appendleft(data)\n            else:\n                self.fire(error(sock, e))\n                self._close(sock)"), None),
+    ('C11', 'errno-positive-form', (R, SOCKETS, "            if e.args[0] not in (EINTR, EWOULDBLOCK, ENOBUFS):\n                self.fire(error(sock, e))\n                # the peer takes no more output, but what it sent before it\n                # went away has still to be delivered: give up the write side\n                # only and let the read side end the connection (EOF / error)\n                self._buffers[sock].clear()\n            else:\n                self._buffers[sock].appendleft(data)",
+                                    "            if e.args[0] in (EINTR, EWOULDBLOCK, ENOBUFS):\n                self._buffers[sock].appendleft(data)\n            else:\n                self.fire(error(sock, e))\n                self._buffers[sock].clear()"), None),
     ('C12', 'close-guard-nested', (R, SOCKETS, "        if sock != self._sock and sock not in self._clients:\n            return\n\n        self._poller.discard(sock)",
                                    "        if not (sock == self._sock or sock in self._clients):\n            return\n\n        self._poller.discard(sock)"), None),
     ('C16', 'commonpath-idiom', (R, STATIC, "        if location != self.docroot and not location.startswith(self.docroot.rstrip(os.sep) + os.sep):",
